@@ -2279,6 +2279,21 @@ class unyt_array(np.ndarray):
 
         return take(self, indices, axis=axis, out=out, mode=mode)
 
+    def searchsorted(self, v, side="left", sorter=None):
+        """method
+
+        Find indices where elements of v should be inserted in a to maintain order.
+
+        Refer to :func:`numpy.searchsorted` for full documentation.
+
+        See also
+        --------
+        numpy.searchsorted : equivalent function
+        """
+        from ._array_functions import searchsorted
+
+        return searchsorted(self, v, side=side, sorter=sorter)
+
     def __reduce__(self):
         """Pickle reduction method
 
